@@ -201,6 +201,10 @@ func (ctx *Ctx) GenVC(fc *FuncContract) (res *FuncResult) {
 			exit.ghost["gv!"+gv.PkgPath+"::"+gv.Name] = vc.Define("gs", t)
 		}
 		for _, en := range fc.Ensures {
+			if en.Defines {
+				vc.assume("definitional postcondition of " + res.FullName + " (defines " + en.Label + "): " + en.Src + " - assumed at call sites, not proved")
+				continue
+			}
 			t, err := penv.EvalBool(en.E)
 			if err != nil {
 				return fmt.Sprintf("ensures %s does not resolve: %v", en.Label, err)
